@@ -16,10 +16,18 @@ defect), and the regenerated lock table still shows `muxer.runInner` holding the
 request. -/
 def knownHLSCycle (chains : List String) : Bool :=
   chains.any (·.startsWith "pathManager.AddReader<hls.muxer.runInner") &&
-  chains.any (·.startsWith "hls.Server.PathReady<pathManager.doSetPathReady") &&
+  chains.any (fun c => c.startsWith "hls.Server.PathReady<pathManager.doSetPathReady" ||
+    c.startsWith "hls.Server.PathNotReady<pathManager.doSetPathNotReady") &&
   chains.any (fun c => c.startsWith "hls.muxer.api" && (c.splitOn "<").contains "hls.Server.run") &&
   !chains.any (fun c => c == "hls.muxer.run" || c.startsWith "hls.muxer.run<") &&
   (lockAcrossRequest Gen.C40.lockFns).contains (Gen.C40.LF_hls_muxer_runInner, Gen.C40.MU_hls_muxer_mutex)
+
+/-- Finding class `hlsSessionCloseRace` on the frames of a panicking goroutine (innermost first): a muxer
+that is being destroyed closes a session (`session.close2`) which `muxer.addSession` has already
+registered but whose `reader` field `session.initialize` has not set yet: `stream.RemoveReader(nil)`. -/
+def knownSessionCrash (chain : List String) : Bool :=
+  chain.contains "stream.Reader.stop" && chain.contains "stream.Stream.RemoveReader" &&
+  chain.contains "hls.session.close2"
 
 /-- One op = one stress run of the real loops.  The model's answer is `done` (the theorems say every
 operation, including shutdown, completes) followed by the sampled blocking sites that the extracted
@@ -30,6 +38,10 @@ def step (_ : Unit) (op impl : String) : Unit × DrvOut :=
   match words op with
   | "stress" :: _ | "hls" :: _ =>
     if impl == "skipped" then ((), { model := "-" })
+    else if impl.startsWith "crash" then
+      let chain := (impl.drop 6).toString.splitOn "<"
+      let v := if knownSessionCrash chain then "KNOWN hlsSessionCloseRace " else "FAIL "
+      ((), { model := "done", spec := v ++ "the server process panicked in " ++ (impl.drop 6).toString })
     else if impl.startsWith "hang" then
       let chains := (impl.drop 5).toString.splitOn ","
       let v := if knownHLSCycle chains then "KNOWN hlsMuxerLockCycle " else "FAIL "
